@@ -9,13 +9,13 @@ import (
 
 // Style selects the identifier quoting of the rendered SQL.
 type Style struct {
-	PG       bool // identifiers in double quotes (PostgresEscapingDialect)
-	Brackets bool // ARRAY(..) written as [..] (IdiomaticArrays)
-	QuoteAll bool // quote every identifier, even plain ones
-	BareFrom bool // ... except the plain table names and aliases of FROM (so that the text also parses without the option)
-	Root     bool // the document is addressed under `root` (Wrapped): FROM paths get the prefix
-	ctes     map[string]bool
-	inSub    bool // rendering a row-scoped subquery: paths without <- are relative to the row
+	PG        bool // identifiers in double quotes (PostgresEscapingDialect)
+	Brackets  bool // ARRAY(..) written as [..] (IdiomaticArrays)
+	QuoteAll  bool // quote every identifier, even plain ones
+	BareFrom  bool // ... except the plain table names and aliases of FROM (so that the text also parses without the option)
+	Root      bool // the document is addressed under `root` (Wrapped): FROM paths get the prefix
+	ctes      map[string]bool
+	inSub     bool // rendering a row-scoped subquery: paths without <- are relative to the row
 	PadCounts bool // LIMIT / OFFSET counts written with a leading zero (a decimal number all the same)
 }
 
